@@ -19,11 +19,32 @@ Section FieldSupr.
   Variable rec : ty -> params -> val -> bool.
   Variable recm : ty -> params -> val -> est -> res est.
 
+  (* as open_sup, but the alternative chosen need not be the one registered under the identifier's value (then the
+     library answers "open type ... mismatch"); the identifier is an INTEGER component or a one-component wrapper *)
   Definition open_supr (allf : list field) (allv : list val) (i : nat) (fp : params) (ft : ty) (x : val) : bool :=
-    open_sup rec recm allf allv i fp ft x &&
-    match nth_error allf (find_field (p_refName fp) allf i 0) with
-    | Some rf => ref_shape (f_ty rf) && negb (p_optional (f_params rf)) && negb (p_openType (f_params rf))
-    | None => false
+    match ft, x with
+    | TStruct cfs, VStruct cvs =>
+        match cvs with
+        | VInt present :: _ =>
+            is_choice cfs && negb (p_valueExt fp) && (0 <? present)%Z && (present <? Z.of_nat (List.length cfs))%Z &&
+            Nat.eqb (List.length cfs) (List.length cvs) &&
+            let idx := find_field (p_refName fp) allf i 0 in
+            negb (Nat.eqb idx i) &&
+            match nth_error allf idx, nth_error allv idx, nth_error cfs (Z.to_nat present), nth_error cvs (Z.to_nat present) with
+            | Some rf, Some rv, Some a, Some av =>
+                ref_shape (f_ty rf) && negb (p_optional (f_params rf)) && negb (p_openType (f_params rf)) &&
+                match p_refValue (f_params a), get_ref REF_FUEL (f_ty rf) rv with
+                | Some r, Ok z => negb (r =? z)%Z
+                                  || (Nat.eqb (find_alt (tl cfs) 1 r) (Z.to_nat present)
+                                      && rec (f_ty a) (f_params a) av
+                                      && nonempty_bytes (recm (f_ty a) (f_params a) av (mkest [] 0)))
+                | _, _ => false
+                end
+            | _, _, _, _ => false
+            end
+        | _ => false
+        end
+    | _, _ => false
     end.
 
   Definition field_supr (allf : list field) (allv : list val) (i : nat) (f : field) (x : val) : bool :=
@@ -62,10 +83,12 @@ Fixpoint supr_f (fuel : nat) (t : ty) (p : params) (v : val) : bool :=
             match vs with
             | VInt present :: _ =>
                 (0 <=? present)%Z &&
-                match nth_error fs (Z.to_nat present), nth_error vs (Z.to_nat present) with
-                | Some a, Some av => supr_f f (f_ty a) (f_params a) av
-                | _, _ => true
-                end
+                (if (0 <? present)%Z && (present <? Z.of_nat (List.length fs))%Z then
+                   match nth_error fs (Z.to_nat present), nth_error vs (Z.to_nat present) with
+                   | Some a, Some av => supr_f f (f_ty a) (f_params a) av
+                   | _, _ => true
+                   end
+                 else true)
             | _ => true
             end
           else (count_optional fs <=? 64) && fields_supr (supr_f f) (makeField f) fs vs 0 fs vs
